@@ -285,14 +285,30 @@ func C18(c *Ctx) {
 			if cm.IsInvoke() && cm.Method.Name() == "Exec" && ssau.TypeIs(cm.Value.Type(), prog.Abs("core"), "Interpreter") {
 				nInv++
 				// must be inside a function literal whose value is stored into FuncAction.F
+				// f must be what a FuncAction's F holds: a function literal, or a
+				// method whose bound method value is stored there
 				okWrap := false
-				if f.Parent() != nil {
-					ssau.Instrs(f.Parent(), func(in2 ssa.Instruction) {
-						if st, ok := in2.(*ssa.Store); ok && ssau.IsField(st.Addr, prog.Abs("core"), "FuncAction", "F") {
-							if mc, ok := st.Val.(*ssa.MakeClosure); ok && mc.Fn == ssa.Value(f) {
+				for _, g := range c.P.FuncsIn("core") {
+					ssau.Instrs(g, func(in2 ssa.Instruction) {
+						st, ok := in2.(*ssa.Store)
+						if !ok || !ssau.IsField(st.Addr, prog.Abs("core"), "FuncAction", "F") {
+							return
+						}
+						mc, ok := st.Val.(*ssa.MakeClosure)
+						if !ok {
+							return
+						}
+						w := mc.Fn.(*ssa.Function)
+						if w == f {
+							okWrap = true
+							return
+						}
+						// bound-method wrapper (or a thin literal) that only forwards to f
+						ssau.Instrs(w, func(in3 ssa.Instruction) {
+							if ci, ok := in3.(ssa.CallInstruction); ok && ci.Common().StaticCallee() == f {
 								okWrap = true
 							}
-						}
+						})
 					})
 				}
 				c.R.Check(okWrap, "C18-R2", fmt.Sprintf("%s: interpreter executed only as FuncAction.F #%d", fname(f), nInv), c.pos(in), "the call is the body of a FuncAction's F", "an interpreter is executed outside the FuncAction wrapper")
